@@ -1,7 +1,7 @@
 /-
   Driver/C14.lean — line-protocol front end of Model/Otlp.lean, part 1 (routing).
     stream `c14` : (c14 (sig LOGS TRACES METRICS) E (props (xKEY V)…)) → `<logs|traces|metrics|none> discard=<0|1>`
-      E ::= none | (point NANOS) | (range NANOS NANOS)
+      E ::= none | (point NANOS) | (range NANOS NANOS)      NANOS ≤ 253402300799999999999 (`Timestamp::MAX`)
       V ::= (kind span|metric) | (str xHEX) | (disp xHEX) | (i64 N) | (u64 N) | (i128 N) | (u128 N)
           | (f64 BITS) | (bool B) | (null) | (seq V…) | (sseq V…)
   The driver executes `routeEvt` — the function `EmitModel.C14.route_evt_shape` relates to `route ∘ shapeOf`.
@@ -36,14 +36,29 @@ partial def vals? : List Sexp → Option (List Val)
     pure (v :: vs)
 end
 
+/-- `Timestamp::MAX` (9999-12-31T23:59:59.999999999Z) in nanoseconds since the unix epoch: later instants cannot
+    be built (`Timestamp::from_unix` is `None`), so they are not cases. -/
+def tsMaxNanos : Nat := 253402300799999999999
+
+def instant? (s : Sexp) : Option Nat := do
+  let n ← s.nat?
+  if n ≤ tsMaxNanos then some n else none
+
 def extent? : Sexp → Option Extent
   | .atom "none" => some .none
-  | .list [.atom "point", t] => t.nat?.map .point
+  | .list [.atom "point", t] => (instant? t).map .point
   | .list [.atom "range", a, b] => do
-    let a ← a.nat?
-    let b ← b.nat?
+    let a ← instant? a
+    let b ← instant? b
     pure (.range a b)
   | _ => none
+
+/-- Coverage statistics only: does the extent hold an instant past the 64-bit nanosecond range of OTLP's
+    `*_unix_nano` fields (2554-07-21 and later)? The routing does not look (`EmitModel.C14.instants_irrelevant`). -/
+def extentFar : Extent → Bool
+  | .none => false
+  | .point t => decide (t ≥ 2 ^ 64)
+  | .range a b => decide (a ≥ 2 ^ 64) || decide (b ≥ 2 ^ 64)
 
 def prop? : Sexp → Option (String × Val)
   | .list [k, v] => do
@@ -91,7 +106,7 @@ def runC14 (line : String) : String :=
     | some c, some ext, some props =>
       let e : Evt := ⟨ext, props⟩
       let r := routeEvt c e
-      let sg := if !c.logs && !c.traces && !c.metrics then "trivial" else s!"sig={showCfg c},{showShape (shapeOf e)}"
+      let sg := if !c.logs && !c.traces && !c.metrics then "trivial" else s!"sig={showCfg c},{showShape (shapeOf e)}{if extentFar ext then ",far" else ""}"
       s!"{showOutcome r}\t{sg}"
     | _, _, _ => "bad-op"
   | _ => "bad-op"
